@@ -204,6 +204,7 @@ def apply_rules(card, sig, body, log):
     run('X6', R.x6_for_ref)
     run('X19', R.x19_copy_within)
     run('X13', R.x13_bool_or_assign)
+    run('X23', R.x23_match_never)
     if 'optq' not in card.opts:
         run('X22', R.x22_try_result)
     for (rule, old, new) in card.bodysubs:
